@@ -96,12 +96,25 @@ class C01(Prop):
         family = r.choice(["thermostat", "shutter"])
         healthy = td.auto_responder(thermostat=reported, family=family, rnd=r)
         inject = {"base": 0, "step": None, "action": None}
+        odd_logins = r.random() < 0.3
 
         def responder(conn, idx, frame):
             # faults only after the login has been answered with a session id (the statement's precondition)
             if inject["step"] is not None and idx - inject["base"] == inject["step"] and frames.classify(frame) not in ("login", "login2"):
                 return inject["action"]
-            return healthy(conn, idx, frame)
+            out = healthy(conn, idx, frame)
+            if odd_logins and frames.classify(frame) in ("login", "login2") and isinstance(out, (bytes, bytearray)) and r.random() < 0.5:
+                # the login reply still carries the session id at offset 8, but its own header is odd: a length word that says less or
+                # more than was sent, or a second message of the device's in the same segment
+                b = bytearray(out)
+                x = r.random()
+                if x < 0.6:
+                    b[2:4] = r.choice([1, 2, 4, 8, 9, 10, 11, 12, 13, 40, 82, 84, 0, 255, 256, 65535, r.randrange(65536)]).to_bytes(2, "little")
+                if x > 0.4:
+                    b += bytes.fromhex("fef0") + r.randbytes(r.randrange(2, 60))
+                acc.count("login_replies_with_odd_header")
+                return bytes(b)
+            return out
 
         self.dev.responder = responder
         now = gen.epoch(r)
